@@ -13,7 +13,7 @@
 
 From Coq Require Import String List NArith Bool Arith.
 From Nexus Require Import Conc.SkelTypes Conc.Machine Conc.MachineFacts
-  Conc.Ranked Conc.RankedProofs Conc.Stall Conc.StallProofs
+  Conc.Ranked Conc.RankedProofs Conc.Stall Conc.StallProofs Conc.YieldRetry
   Conc.Shutdown Conc.Skeleton Conc.SkeletonProofs Conc.SkelObligationsC07 gen.GenSkeleton.
 Import ListNotations.
 
@@ -73,6 +73,68 @@ Theorem yield_retry_window :
    < 2 * gen_send_result_deadline_ms + gen_yield_retry_delay_ms)%N.
 Proof. exact yield_retry_window_holds. Qed.
 Print Assumptions yield_retry_window.
+
+(** What the exception promises (model [Conc/YieldRetry.v] of one call in
+    [dealer.yield] / [dealer.syncYield]; [room e]: the caller's queue has room
+    at instant e after the YIELD; [inst d k] is the k-th retry instant
+    d, 3d, 7d, ...): a YIELD that found the caller's queue full is delivered at
+    the FIRST retry instant at which the caller has room ... *)
+Theorem retried_yield_delivered_at_first_room :
+  forall (room : N -> bool) (d D : N) (k : nat),
+    (k < 64)%nat ->
+    room 0%N = false ->
+    (forall j, (j < k)%nat -> room (inst d j) = false /\ (inst d j < D)%N) ->
+    room (inst d k) = true ->
+    snd (YieldRetry.run true room d D) = (inst d k, Delivered).
+Proof. exact YieldRetry.retried_yield_delivered. Qed.
+Print Assumptions retried_yield_delivered_at_first_room.
+
+(** ... and otherwise the call is cancelled at the first retry instant that
+    has reached the deadline (the callee's handler is released then). *)
+Theorem retried_yield_cancelled_at_deadline :
+  forall (room : N -> bool) (d D : N) (k : nat),
+    (k < 64)%nat ->
+    room 0%N = false ->
+    (forall j, (j < k)%nat -> room (inst d j) = false /\ (inst d j < D)%N) ->
+    room (inst d k) = false -> (D <= inst d k)%N ->
+    snd (YieldRetry.run true room d D) = (inst d k, Cancelled).
+Proof. exact YieldRetry.retried_yield_cancelled. Qed.
+Print Assumptions retried_yield_cancelled_at_deadline.
+
+Theorem retry_instants_closed_form :
+  forall (k : nat) (d : N), (inst d k + d = d * 2 ^ N.of_nat (S k))%N.
+Proof. exact YieldRetry.inst_closed_form. Qed.
+Print Assumptions retry_instants_closed_form.
+
+(** The invocation is KEPT during the retries ([keepInvocation]): every
+    attempt finds it, whatever the caller does. *)
+Theorem invocation_kept_during_retries :
+  forall (room : N -> bool) (d D : N),
+    Forall (fun a => snd a = true) (fst (YieldRetry.run true room d D)) /\
+    snd (snd (YieldRetry.run true room d D)) <> Lost.
+Proof. exact YieldRetry.invocation_kept_during_retries. Qed.
+Print Assumptions invocation_kept_during_retries.
+
+(** Without it (the deferred clean-up also runs when a retry was asked for)
+    the statement is FALSE in the model: whatever the caller does, the first
+    retry finds nothing — no RESULT, no cancellation. *)
+Theorem retried_yield_refuted_without_keep :
+  forall (room : N -> bool) (d D : N),
+    room 0%N = false -> snd (YieldRetry.run false room d D) = (d, Lost).
+Proof. exact YieldRetry.yield_retry_without_keep_loses_result. Qed.
+Print Assumptions retried_yield_refuted_without_keep.
+
+(** When the caller never has room the retries end at [retry_total]. *)
+Theorem never_room_ends_at_retry_total :
+  forall d D : N, fst (snd (YieldRetry.run true (fun _ => false) d D)) = retry_total d D.
+Proof. exact YieldRetry.never_room_ends_at_retry_total. Qed.
+Print Assumptions never_room_ends_at_retry_total.
+
+(** Per run: the translator's reading of today's [dealer.syncYield]. *)
+Theorem yield_retry_keeps_invocation :
+  Skeleton.yield_retry_keeps_invocation gen_yield_retry_keeps_invocation = true.
+Proof. exact yield_retry_keeps_invocation_holds. Qed.
+Print Assumptions yield_retry_keeps_invocation.
 
 (** ** (b) Ranked progress, proved once, for any number of processes *)
 
